@@ -2,7 +2,7 @@
    of the code as it is since /repo 9b8ead8 (R = true) against recorded traces, and the exact specification evaluated on the
    implementation's own episodes. *)
 From Coq Require Import ZArith List Bool Lia Arith.
-From RL4CO Require Import Base.Num Base.EnvSig Spec.Routes Spec.VRPFeatures Env.MTVRP Env.MTVRPProofs Harness.HEnv.
+From RL4CO Require Import Base.Num Base.EnvSig Spec.Routes Spec.VRPFeatures Env.MTVRP Env.MTVRPProofs Harness.HEnv Harness.HBook.
 Import ListNotations.
 Open Scope Z_scope.
 
@@ -56,9 +56,50 @@ Definition check_C03 (c : mtvrp_case) : Z :=
 (* C05: model masks inside implementation masks *)
 Definition check_C05 (c : mtvrp_case) : Z := check_trace (E:=M) (c_inst c) 1 (c_trace c).
 
-(* C06: the implementation's verdict against the specification first: feasible => accepted (14), infeasible beyond
-   the slack => rejected (15) -- concrete failing inputs; then the model of the checker against the verdict (13) *)
+(* ---------------------------------------------------------------- the checker's instance-sanity assertions, specification side
+   What check_solution_validity documents about the INSTANCE before it looks at the solution (its instance asserts, in
+   exact arithmetic; [sl] = slack on the one that does arithmetic): distance limit, time windows and service times
+   non-negative, every window of positive length, and "vehicle can perform service and get back to depot in time":
+   window start + travel time to the depot + service time within the depot's deadline.  An instance that fails it is
+   outside the documented input format, whatever the solution. *)
+Definition mtvrp_sanityb (i : mtvrp_inst) (sl : Z) : bool :=
+  (0 <=? lim i) &&
+  forallb (fun x => 0 <=? x) (tlo i) && forallb (fun x => 0 <=? x) (thi i) &&
+  forallb (fun x => 0 <=? x) (svc i) &&
+  forallb (fun j => lo i j <? hi i j) (seq 0 (nn i)) &&
+  forallb (fun j => lo i j + tfun i j 0 + sv i j <=? hi i 0%nat + sl) (seq 0 (nn i)).
+
+Lemma forallb_eq_ext {X} (f g : X -> bool) (l : list X) : (forall x, f x = g x) -> forallb f l = forallb g l.
+Proof. intros H. induction l as [|x l IH]; [reflexivity|]. cbn [forallb]. rewrite H, IH. reflexivity. Qed.
+
+(* what the model's [data_ok] (the coded asserts) means: in exact arithmetic it IS this sanity predicate *)
+Lemma mtvrp_sanityb_is_data_ok (i : mtvrp_inst) : mtvrp_sanityb i 0 = data_ok exact i.
+Proof.
+  unfold mtvrp_sanityb, data_ok. cbn [rnd exact].
+  rewrite (forallb_eq_ext (fun j => lo i j + tfun i j 0 + sv i j <=? hi i 0%nat + 0) (fun j => lo i j + tfun i j 0 + sv i j <=? hi i 0%nat)).
+  - reflexivity.
+  - intros j. rewrite Z.add_0_r. reflexivity.
+Qed.
+
+Example mtvrp_sanity_examples :
+  let mk := fun wl wh s => {| dl := [0; 16]; db := [0; 0]; cap := 64; lim := 1000; opn := false; tlo := wl; thi := wh; svc := s;
+                             dist := [[0; 64]; [64; 0]]; tt := [[0; 64]; [64; 0]] |} in
+  mtvrp_sanityb (mk [0; 0] [200; 100] [0; 8]) 0 = true /\
+  mtvrp_sanityb (mk [0; -1] [200; 100] [0; 8]) 0 = false /\       (* negative window start *)
+  mtvrp_sanityb (mk [0; 0] [200; 100] [0; -8]) 0 = false /\       (* negative service time *)
+  mtvrp_sanityb (mk [0; 100] [200; 100] [0; 8]) 0 = false /\      (* empty window *)
+  mtvrp_sanityb (mk [0; 130] [200; 140] [0; 8]) 0 = false.         (* 130 + 64 + 8 > 200: cannot return *)
+Proof. vm_compute. repeat split; reflexivity. Qed.
+
+(* C06: 23 = the instance fails the sanity assertions (beyond the slack) and the checker accepted all the same (an
+   instance outside the documented format passed; needs neither the model nor the solution); on an instance that fails
+   them only the model's verdict is compared (13).  Otherwise the implementation's verdict against the specification:
+   feasible => accepted (14), infeasible beyond the slack => rejected (15) -- concrete failing inputs; then the model of
+   the checker against the verdict (13) *)
 Definition c06 (i : mtvrp_inst) (slack : Z) (acts : list nat) (verdict : bool) : Z :=
+  if negb (mtvrp_sanityb i (3 * slack)) then
+    (if verdict then 23 else if negb (Bool.eqb (mtvrp_checker f32 i acts) verdict) then 13 else 0)
+  else
   if mtvrp_feasibleb i 0 acts && negb verdict then 14
   else if negb (mtvrp_feasibleb i (3 * slack) acts) && verdict then 15
   else if negb (Bool.eqb (mtvrp_checker f32 i acts) verdict) then 13
@@ -74,3 +115,13 @@ Definition check_C06_sol (c : (mtvrp_inst * Z) * list nat * bool) : Z :=
 Definition check_flags (c : mtvrp_inst * Z) : Z :=
   (if mtvrp_wfb (fst c) then 1 else 0) + (if mtvrp_solvableb impl_repaired (fst c) then 2 else 0)
   + (if mtvrp_metricb (fst c) then 4 else 0).
+
+(* ---------------------------------------------------------------- bookkeeping (C02 / C04, see Harness/HBook.v)
+   keys of the env's step output compared after every step, in this order:
+   current_node (= the action just taken), current_route_length, current_time, used_capacity_linehaul,
+   used_capacity_backhaul, visited (bit j = node j) *)
+Definition book_obs (s : mtvrp_st) : list Z := [Z.of_nat (cur s); rlen s; tim s; usedl s; usedb s; bitsZ (vis s)].
+Definition book_kinds : list nat := [2; 0; 0; 0; 0; 0]%nat.
+Definition mtvrp_book := ((mtvrp_inst * Z) * list Z * list Z * list (nat * list Z))%type.
+Definition check_book (c : mtvrp_book) : Z :=
+  match c with (i, tols, o0, tr) => book_check M (fst i) book_obs book_kinds tols o0 tr end.
